@@ -414,7 +414,8 @@ def _round_sparse_x_to_integers(
                 dtype=output_dtype)
 
             if chunk_size is None:
-                chunk_size = data.shape
+                # (an empty contiguous array has shape (0,))
+                chunk_size = (max(1, data.shape[0]),)
 
             for i0 in range(0, data.shape[0], chunk_size[0]):
                 i1 = min(data.shape[0], i0+chunk_size[0])
@@ -495,7 +496,8 @@ def _is_sparse_x_integers(
         chunk_size = data.chunks
 
         if chunk_size is None:
-            chunk_size = data.shape
+            # (an empty contiguous array has shape (0,))
+            chunk_size = (max(1, data.shape[0]),)
 
         for i0 in range(0, data.shape[0], chunk_size[0]):
             i1 = min(data.shape[0], i0+chunk_size[0])
